@@ -423,6 +423,77 @@ def _rand_shard(seed, n, known):
     return res
 
 
+# ---------------------------------------------------------------- through the whole pipeline (finder.find)
+
+
+def _pipeline_shard(seed, nfiles, per_file, known):
+    """`#if E / marker / #else / marker / #endif` blocks in a real file analysed with
+    finder.find: the branch attributed to the platform must be the model's."""
+    core.setup_import_path()
+    import os
+
+    import hypothesis
+    from hypothesis import HealthCheck, given, settings
+
+    from vlib import observe
+
+    res = Result()
+    cases = []
+
+    @hypothesis.seed(seed)
+    @settings(max_examples=nfiles * per_file, database=None, deadline=None, suppress_health_check=list(HealthCheck), phases=[hypothesis.Phase.generate])
+    @given(case_strategy())
+    def collect(c):
+        cases.append(c)
+
+    collect()
+    usable = []
+    for macros, e in cases:
+        try:
+            v = mx.evaluate(e, macros)
+        except mx.UB:
+            continue
+        if failure_kind(macros, e) is not None:
+            continue  # the expression-level search reports (or suppresses) these
+        usable.append((macros, e, v))
+    for i in range(0, len(usable), per_file):
+        chunk = usable[i:i + per_file]
+        lines, expect = [], {}
+        for macros, e, v in chunk:
+            for n, b in macro_defs(macros):
+                lines.append(f"#define {n} {b}")
+            lines.append(f"#if {mx.render(e)}")
+            lines.append("int taken;")
+            expect[len(lines)] = v[0] != 0
+            lines.append("#else")
+            lines.append("int other;")
+            expect[len(lines)] = v[0] == 0
+            lines.append("#endif")
+            for n, b in macro_defs(macros):
+                lines.append(f"#undef {n}")
+        with core.Scratch("c02p") as d:
+            path = os.path.join(d, "exprs.c")
+            with open(path, "w") as f:
+                f.write("\n".join(lines) + "\n")
+            try:
+                state, cb = observe.find(d, {"p": [observe.entry(path)]})
+            except Exception as ex:
+                res.violation(f"pipeline:exception:{type(ex).__name__}", {"file": "\n".join(lines)}, "analysis succeeds", f"{type(ex).__name__}: {ex}")
+                continue
+            a, _ = observe.attribution_of(state, path)
+        for ln, want in expect.items():
+            got = bool(a.get(ln))
+            if got != want:
+                ctx_lines = lines[max(0, ln - 4):ln + 2]
+                sig = "pipeline:wrong-branch"
+                if sig not in known:
+                    res.violation(sig, {"lines": ctx_lines, "line": ln}, want, got)
+                break
+        res.case(key=["pipeline", lines], nontrivial=True, sample=None, labels=["pipeline-file"])
+        res.labels["pipeline-expressions"] += len(chunk)
+    return res
+
+
 # ---------------------------------------------------------------- unevaluated #elif
 
 GARBAGE = ["1 +", "( 1", "1 )", "1 / 0", "defined(", "defined", "", "1 2", "* 3", "F(", "F()", "1 ? 2", "@", "1 % 0", "0x", "'a", "1 <<", "? :", "##", "a b c"]
@@ -568,6 +639,7 @@ def run(ctx):
     nrand = ctx.pick(24000, 1000000)
     jobs += [(_rand_shard, (ctx.shard_seed("rand", i), nrand // (n * 2), known)) for i in range(n * 2)]
     jobs += [(_elif_shard, (ctx.shard_seed("elif", i), ctx.pick(40, 300), known)) for i in range(4)]
+    jobs += [(_pipeline_shard, (ctx.shard_seed("pipeline", i), ctx.pick(2, 40), 60, known)) for i in range(4)]
     parts = core.pool_map(_dispatch, [(j,) for j in jobs])
     res = core.merge_results(parts)
     res.exhaustive = False
